@@ -51,6 +51,7 @@ func main() {
 	}
 	fn(c)
 	c.ConcurrentReplay()
+	c.RetainCheck()
 	c.Flush()
 	c.out.Flush()
 	f.Close()
